@@ -126,24 +126,28 @@ def ktPrime (kt : α) (am : Option α) (maxKt : α) : Except Err α :=
       let k : α := kt / (1.031 * exp ((-1.4) / (0.9 + 9.4 / am)) + 0.1)
       .ok (pmin (pmax k 0.0) maxKt)
 
-/-- `_disc_kn(clearness_index, airmass, max_airmass)` -> (Kn, am). -/
+/-- `_disc_kn(clearness_index, airmass, max_airmass)` -> (Kn, am).  (The statements after the
+    `if kt <= 0.6` are written out in both branches, as the formula translator does.) -/
 def discKn (kt am maxAm : α) : α × α :=
   let am : α := pmin am maxAm
   let kt2 : α := kt * kt
   let kt3 : α := kt2 * kt
-  let abc : α × α × α :=
-    if kt ≤ 0.6 then
-      (0.512 - 1.56 * kt + 2.286 * kt2 - 2.222 * kt3,
-       0.37 + 0.962 * kt,
-       (-0.28) + 0.932 * kt - 2.048 * kt2)
-    else
-      ((-5.743) + 21.77 * kt - 27.49 * kt2 + 11.56 * kt3,
-       41.4 - 118.5 * kt + 66.05 * kt2 + 31.9 * kt3,
-       (-47.01) + 184.2 * kt - 222.0 * kt2 + 73.81 * kt3)
-  let deltaKn : α := abc.1 + abc.2.1 * exp (abc.2.2 * am)
-  let knc : α := 0.866 - 0.122 * am + 0.0121 * pow am 2.0 - 0.000653 * pow am 3.0
-    + 1.4e-05 * pow am 4.0
-  (knc - deltaKn, am)
+  if kt ≤ 0.6 then
+    let a : α := 0.512 - 1.56 * kt + 2.286 * kt2 - 2.222 * kt3
+    let b : α := 0.37 + 0.962 * kt
+    let c : α := (-0.28) + 0.932 * kt - 2.048 * kt2
+    let deltaKn : α := a + b * exp (c * am)
+    let knc : α := 0.866 - 0.122 * am + 0.0121 * pow am 2.0 - 0.000653 * pow am 3.0
+      + 1.4e-05 * pow am 4.0
+    (knc - deltaKn, am)
+  else
+    let a : α := (-5.743) + 21.77 * kt - 27.49 * kt2 + 11.56 * kt3
+    let b : α := 41.4 - 118.5 * kt + 66.05 * kt2 + 31.9 * kt3
+    let c : α := (-47.01) + 184.2 * kt - 222.0 * kt2 + 73.81 * kt3
+    let deltaKn : α := a + b * exp (c * am)
+    let knc : α := 0.866 - 0.122 * am + 0.0121 * pow am 2.0 - 0.000653 * pow am 3.0
+      + 1.4e-05 * pow am 4.0
+    (knc - deltaKn, am)
 
 /-- `disc(ghi, altitude, doy, pressure, min_sin_altitude, min_altitude, max_airmass)`
     -> (dni, kt, am);  `pressure = none` is Python `None`.  `min(None, 12)` is a TypeError. -/
